@@ -71,6 +71,18 @@ def step (_ : Unit) (toks : List Val) (impl : String) : Unit × Out :=
     | some s => mk (exStr (Func.foldReverse s seed accF) (fun r => withIn (toString r) s))
                   (some (withIn (toString (Spec.Func.foldReverse s seed accF)) s)) [lenTag "foldrev" s]
     | none => bad
+  | [.w "foldpanic", l, .i seed, .i k] =>   -- the accumulator panics on its k-th call: a panic when k ∈ 1..len, and the input untouched either way
+    match l.ints? with
+    | some s =>
+      let r := if 1 ≤ k ∧ k ≤ (s.length : Int) then "panic:custom" else toString (Spec.Func.fold s seed accF)
+      mk (withIn r s) (some (withIn r s)) ["foldpanic"]
+    | none => bad
+  | [.w "foldrevpanic", l, .i seed, .i k] =>
+    match l.ints? with
+    | some s =>
+      let r := if 1 ≤ k ∧ k ≤ (s.length : Int) then "panic:custom" else toString (Spec.Func.foldReverse s seed accF)
+      mk (withIn r s) (some (withIn r s)) ["foldrevpanic"]
+    | none => bad
   | [.w "map", l] =>
     match l.ints? with
     | some s => mk (withIn (ofInts (Func.map s convF 0)).render s) (some (withIn (ofInts (Spec.Func.map s convF)).render s)) [lenTag "map" s]
